@@ -38,7 +38,7 @@ INIT_MUT = ('flag_reserved', 'version_minor', 'msgid', 'exch', 'insert_unknown',
             'downgrade', 'foreign_proposal', 'reorder_transforms', 'nonce', 'nonce_len', 'ke', 'ke_group', 'spi_i', 'spi_r', 'inject_cookie',
             'inject_invalid_ke', 'reserved_octet', 'extra_notify', 'strip_ke')
 AUTH_MUT = ('id_data', 'id_type', 'auth_corrupt', 'auth_truncate', 'auth_extend', 'auth_reflect', 'auth_guess_psk', 'auth_method', 'swap_id_payload_type', 'drop_auth',
-            'skip_auth_create_child', 'skip_auth_create_child', 'skip_auth_rekey_ike', 'skip_auth_informational')
+            'skip_auth_create_child', 'skip_auth_create_child', 'skip_auth_rekey_ike', 'skip_auth_informational', 'auth_bad_child_refused', 'auth_bad_child_refused')
 KNOWN = set(range(33, 47)) - {37, 38}
 
 
@@ -332,6 +332,16 @@ def run(scenario):
                     idp['type'] = R.P_IDr if idp['type'] == R.P_IDi else R.P_IDi
                 elif kind == 'drop_auth':
                     pls.remove(au)
+                elif kind == 'auth_bad_child_refused':
+                    # an IKE_AUTH message whose AUTH does not verify AND that refuses (or does not carry) the piggy-backed CHILD_SA: the
+                    # refusal of the CHILD_SA must not be looked at before the peer is authenticated
+                    d = bytearray(au['data'])
+                    d[r2.randrange(len(d))] ^= 1 << r2.randrange(8)
+                    au['data'] = bytes(d)
+                    pls[:] = [p for p in pls if p['type'] not in (R.P_SA, R.P_TSi, R.P_TSr) and not (p['type'] == R.P_NOTIFY and p['ntype'] == 16391)]
+                    if h['R']:
+                        pls.insert(r2.choice([0, len(pls)]), {'type': R.P_NOTIFY, 'proto': 0, 'ntype': r2.choice([R.N_NO_PROPOSAL_CHOSEN, R.N_TS_UNACCEPTABLE]),
+                                                             'spi': b'', 'data': b''})
                 new = ip.seal(s, {'spi_i': hh['spi_i'], 'spi_r': hh['spi_r'], 'exch': 35, 'I': hh['I'], 'R': hh['R'], 'id': hh['id']}, pls,
                               bytes(r2.getrandbits(8) for _ in range(16)))
             if new is None or new == bytes(data):
